@@ -45,6 +45,15 @@ Proof.
   intros. split; [apply update_H_writes|split; [apply update_H_frame|apply update_H_overwrite]].
 Qed.
 
+(* Any sequence of in-place update_H calls on the same factors leaves exactly what the LAST call alone
+   would have written on the original factors: no entry of an earlier update (e.g. third-level noise
+   entries) survives, nothing accumulates.  With C05_mpo_elem_dense: after every call of a sequence the
+   MPO is the dense Hamiltonian of the drive just written. *)
+Theorem C05_update_H_sequence : forall K (R : ringops K) (F : nat -> nat -> nat -> nat -> nat -> K)
+  (ps : list (drive K)) q n l b b' r,
+  fold_left (update_H R) (ps ++ [q]) F n l b b' r = update_H R F q n l b b' r.
+Proof. exact @update_H_sequence. Qed.
+
 Theorem C05_update_H_slot_is_idle_to_done : forall K (R : ringops K) ht N (Uraw : nat -> nat -> K),
   2 <= N -> forall n l r,
   (nth_error (labs_in R ht N Uraw n) l = Some Idle <-> l = upd_row n) /\
